@@ -658,6 +658,20 @@ func (m *monC13) OnTransition(t *Transition) []Violation {
 	}
 	if isBlock(t.Op) {
 		for _, a := range t.Pre.Auctions {
+			if a.Type == ref.TypeBatch && a.Status == ref.StatusStarted && a.LastEnd().After(now) {
+				// a block strictly before the current end time decides nothing
+				pa := t.Post.Auction(a.ID)
+				m.st.Inc("blocks_before_current_end_time")
+				if len(a.EndTimes) > 1 {
+					m.st.Inc("blocks_strictly_inside_an_extended_round")
+				}
+				if pa != nil && (pa.Status != ref.StatusStarted || !timesEq(pa.EndTimes, a.EndTimes)) {
+					bad("decision-before-end-time", "auction %d (end times %v) is decided by a block at %v, before its current end time: status %s, end times %v", a.ID, a.EndTimes, now, ref.StatusName(pa.Status), pa.EndTimes)
+				}
+				if t.Pre.MatchedLen[a.ID] != t.Post.MatchedLen[a.ID] {
+					bad("matched-count-changed-before-end-time", "auction %d: the recorded matched count changed in a block before its current end time", a.ID)
+				}
+			}
 			if a.Type != ref.TypeBatch || a.Status != ref.StatusStarted || a.LastEnd().After(now) {
 				continue
 			}
